@@ -19,6 +19,9 @@ type propCfg struct {
 	Rule        string
 	Technique   string
 	Assumptions []string
+	LevelText   string // MANIFEST level_claimed.text
+	LevelNote   string // MANIFEST level_note
+	DesignRef   string
 }
 
 func findProp(id string) *propCfg {
@@ -38,6 +41,9 @@ var props = []propCfg{
 		},
 		Rule:      "rapid draws (function of pkg/slice, element type int|string, slice of length 0..12 with duplicates / sorted / reversed / constant shapes, in-domain index or count incl. both ends, function argument from a closed-form family); result compared with an independent list model (Sort/SortBy: ascending + permutation). Non-trivial = input length >= 2 or an argument on a boundary (0, len-1, len); distinct = hash of (function, inputs, arguments).",
 		Technique: "property-based testing (rapid) against an independent list model",
+		LevelText: "Generated-input search: every function of pkg/slice is compared with an independent list model on tens of thousands (quick) to millions (thorough) of generated slices, arguments and function arguments, including all boundary indices and counts; a failure is shrunk by rapid and saved as a replayable case. This is the right level because the property quantifies over all inputs of pure functions with a simple executable specification; it does not prove absence.",
+		LevelNote: "Trusted: the list model (harness/listmodel), Go's runtime. Assumes inputs inside each function's documented domain; Sort/SortBy are checked as 'ascending permutation' (stability is not promised).",
+		DesignRef: "DESIGN.md section 4, C13",
 		Assumptions: []string{
 			"the list model in props/c13/model.go is the specification (written from the F# List documentation the package cites)",
 			"inputs stay in each function's domain (non-empty for Head/Tail/Last/PopLast, 0<=i<len for Item, 0<=n<=len for Take/Skip, equal lengths for Zip)",
@@ -51,6 +57,9 @@ var props = []propCfg{
 		},
 		Rule:      "rapid state machine: a pool of live []int / []string values (literals with and without spare capacity, slice.New); each step applies one slice-package function (PushLast PushHead PopLast Tail Take Skip Append Concat Collect Map Mapi Filter Sort SortBy Distinct Zip, plus the non-slice-returning ones) to pool members chosen with a bias towards re-using the same source; the result joins the pool. After every step every pool value is compared with the deep snapshot taken when it was produced, and the new value with the list model. Non-trivial = a history in which a value with cap>len is extended at least twice or a shortened value (PopLast/Tail/Take/Skip result) is extended; distinct = hash of the operation history.",
 		Technique: "stateful property-based testing (rapid state machine) with a snapshot invariant over the history",
+		LevelText: "Generated histories of slice-package calls over a shared pool of live values; the invariant 'every value still equals the snapshot taken when it was produced' is checked after every call, so aliasing through spare capacity or shared backing arrays shows up whichever later call triggers it. Histories are shrunk to a minimal call sequence. Exploration, not proof: histories up to 40 steps.",
+		LevelNote: "Trusted: the snapshot comparison and the list model. A slice value is what a Folang program can observe (length and elements).",
+		DesignRef: "DESIGN.md section 4, C12",
 		Assumptions: []string{
 			"slice values are observed through len and element reads only (what a Folang program can observe); hidden capacity is not a value",
 			"element types int and string stand for all element types (the functions are generic and never inspect elements)",
